@@ -139,6 +139,42 @@ def bounded_groupby(p):
   return S.result()
 
 
+def bounded_sharded_merge(p):
+  """Aggregation states of shards of the data source, merged, give the result of the whole run (also per slice);
+  a wrong number of states is reported as an error when a strict count is given."""
+  from ml_metrics._src.chainables import io
+  S = Search(p, dict(rows=6, shards='1..4', slicers='none / a / a x b'))
+  rows = [dict(a=a, b=b, v=v) for a, b, v in [(1, 'x', 1.0), (2, 'y', 2.0), (1, 'y', 4.0), (3, 'x', 8.0), (2, 'z', 16.0), (1, 'x', 32.0)]]
+  batches = [_batch([r]) for r in rows]
+  for sset in ((), ('a',), ('a x b',)):
+    def build():
+      t = transform.TreeTransform().data_source(io.SequenceDataSource(batches)).aggregate(SumCount(), input_keys='v', output_keys='sum_v')
+      for n in sset:
+        t = SLICERS[n][0](t)
+      return t
+    whole_it = build().make().iterate(); list(whole_it)
+    whole = dict(whole_it.agg_result)
+    for k in (1, 2, 3, 4):
+      states = []
+      for i in range(k):
+        it = build().make(shard=io.ShardConfig(i, k)).iterate()
+        list(it)
+        states.append(it.agg_state)
+      runner = build().make()
+      got = expect(lambda: dict(runner.get_result(runner.merge_states(states))))
+      ok = got[0] == 'ok' and set(got[1]) == set(whole) and all(mc.close(got[1][kk], whole[kk]) for kk in whole)
+      if not S.check(ok, dict(shards=k, slicers=list(sset)), f'{k} shards merged: {got}; whole run {whole}', cls=f'merge-{len(sset)}'):
+        return S.result()
+      if k >= 2:
+        short = expect(lambda: runner.merge_states(states[:-1], strict_states_cnt=k))
+        if not S.check(short[0] == 'raise', dict(shards=k, what='one state missing with a strict count'), f'merging {k - 1} of {k} states with strict_states_cnt={k}: {short[0]}', cls='strict'):
+          return S.result()
+        full = expect(lambda: runner.merge_states(states, strict_states_cnt=k))
+        if not S.check(full[0] == 'ok', dict(shards=k, what='all states with a strict count'), f'merging all {k} states with strict_states_cnt={k}: {full}', cls='strict-ok'):
+          return S.result()
+  return S.result()
+
+
 def bounded_masks(p):
   """Intra-example masks (slice_mask_fn) in filter and replace mode, and tree.apply_mask itself."""
   from ml_metrics._src.chainables import tree
@@ -168,6 +204,16 @@ def bounded_masks(p):
     got = expect(lambda: tree.apply_mask(examples, masks=masks, replace_false_with=0))
     exp = [[x if m else 0 for x, m in zip(ex, mk)] for ex, mk in zip(examples, masks)]
     if not S.check(got == ('ok', exp), dict(items=repr(examples), mask=masks, mode='nested replace'), f'apply_mask(nested, {masks}, replace=0) = {got}, expected {exp}', cls='nested-replace'):
+      return S.result()
+  # numpy boolean masks over arrays
+  arr = np.array([10, 11, 12, 13])
+  for mask in itertools.product([True, False], repeat=4):
+    m = np.array(mask)
+    got = expect(lambda: list(tree.apply_mask(arr, masks=m)))
+    if not S.check(got == ('ok', [x for x, k in zip(arr.tolist(), mask) if k]), dict(mode='ndarray filter', mask=list(mask)), f'apply_mask(array, {mask}) = {got}', cls='nd-filter'):
+      return S.result()
+    got = expect(lambda: list(tree.apply_mask(arr, masks=m, replace_false_with=-1)))
+    if not S.check(got == ('ok', [x if k else -1 for x, k in zip(arr.tolist(), mask)]), dict(mode='ndarray replace', mask=list(mask)), f'apply_mask(array, {mask}, replace=-1) = {got}', cls='nd-replace'):
       return S.result()
   d = {'p': [1, 2], 'q': [3]}
   got = expect(lambda: tree.apply_mask(d, masks={'p': [True, False], 'q': True}))
